@@ -47,6 +47,7 @@ Definition run_C20 (i : term) : term :=
     TL [TZ (Z.of_nat (List.length ok)); TZ (sumZ ok); TZ 1]
   else if String.eqb op "web" then
     TL [of_zs (repeat 1 (Z.to_nat (gz (gn i 1))))]
+  else if String.eqb op "cow" then TZ 1
   else TL [TS "unknown-op"].
 
 Definition eqv_C20 (i m o : term) : bool :=
